@@ -12,7 +12,14 @@ import (
 	"golang.org/x/tools/go/ssa/ssautil"
 )
 
-const repoDir = "/repo"
+// repoDir: the tree under analysis. Registered checks always use /repo; GOSYM_REPO lets the
+// machinery itself be tried against a scratch copy while /repo is busy.
+var repoDir = func() string {
+	if d := os.Getenv("GOSYM_REPO"); d != "" {
+		return d
+	}
+	return "/repo"
+}()
 const modPath = "github.com/jech/storrent"
 
 var verifDir = func() string {
@@ -28,6 +35,9 @@ const enginePrelude = `//go:build verif
 
 package %s
 
+import "context"
+
+func vLiveContext() context.Context      { return nil }
 func vU8(name string) uint8              { return 0 }
 func vU16(name string) uint16            { return 0 }
 func vU32(name string) uint32            { return 0 }
